@@ -323,6 +323,16 @@ fn part_cold_mode(raw: &RawKey, base: &Env, model: &BTreeMap<String, LTree>, rep
         let st = env.stores();
         hot_complete(raw, &st[0], &st[1])?;
     }
+    // the same as a dry run: pack headers are still read, so the packs must still be requested
+    {
+        let env = mk();
+        let repo = env.open().map_err(|e| ("C16/cold/open".to_string(), e.display_log()))?;
+        env.world.lock().unwrap().reset_log();
+        let r = repo.repair_index(&RepairIndexOptions::default().read_all(true), true);
+        cold_ok(&env, "repair-index-dry-run")?;
+        r.map_err(|e| ("C16/cold/repair-index-dry-run/error".to_string(), e.display_log()))?;
+        rep.inc("cold_repair_index_dry");
+    }
     // repair index reading pack headers (all packs)
     {
         let env = mk();
